@@ -6,6 +6,7 @@ arguments the loop produces (`a ≤ 2·N²`); the self-test runs the real float 
 -/
 import Lemmas.GenFamRphp
 import Lemmas.GenFamBlock
+import Lemmas.GenFamWord
 import Props.C03.Generated
 import Lemmas.FamRamsey
 import Lemmas.C01Combos
@@ -342,5 +343,129 @@ theorem gen_vdwMulti_holds_iff (N k1 k2 : Nat) (ks : List Nat) (hne : ks ≠ [])
 /-- non-vacuity: `VanDerWaerden(3, 2, 2)`: progressions of length 2 in 1..3 -/
 example : VanDerWaerden 3 2 2 [] = Except.ok ⟨3, [.clause [1, 2], .clause [2, 3], .clause [1, 3],
     .clause [-1, -2], .clause [-2, -3], .clause [-1, -3]]⟩ := by rw [gen_vdw_eq_model]; rfl
+
+
+/-! ## RamseyNumber -/
+
+theorem pairLits_eq_pairs (N : Nat) (S : List Nat) :
+    Ramsey.pairLits N S = (pairs S).map (fun p => Ramsey.eId N p.1 p.2) := by
+  simp [Ramsey.pairLits, ← pairs_eq_combos, List.map_map, Function.comp_def]
+
+/-- a loop adding one constraint per set of an enumeration while the number of variables stays `n` -/
+theorem sets_loop (n : Int) (sets : List (List Nat)) (c : List Nat → Con)
+    (body : FState → List Int → Except Err FState) (s : FState) (hs : s.numvar = n)
+    (hb : ∀ s S, S ∈ sets → s.numvar = n → body s (ints S) = Except.ok (push s (c S))) :
+    List.foldlM body s (sets.map ints) = Except.ok { s with cons := s.cons ++ sets.map c } := by
+  rw [foldlM_push_nv n _ body (fun S' => c (S'.map Int.toNat)) _ s hs]
+  · simp [List.map_map, Function.comp_def, ints]
+  · intro s x hx hs
+    simp only [List.mem_map] at hx
+    obtain ⟨S, hS, rfl⟩ := hx
+    rw [hb s S hS hs]
+    simp [List.map_map, Function.comp_def, ints]
+
+/-- the literals `e(u, v)` for the pairs of a vertex set, through the translated `__call__` of the word group -/
+theorem ramsey_pairs_call (n : Nat) {S : List Nat} {m : Nat} (hS : S ∈ combos (rangeN 1 (n + 1)) m) :
+    ∀ z ∈ (pairs S).map (fun p => ((p.1 : Int), (p.2 : Int))),
+      WordOfIndicesVariables.call (wordSelf 0 n 2 "combinations" (combosSeqs n 2)) [some z.1, some z.2] =
+        Except.ok (Sum.inl ((Ramsey.eId n z.1.toNat z.2.toNat : Nat) : Int)) := by
+  intro z hz
+  simp only [List.mem_map] at hz
+  obtain ⟨p, hp, rfl⟩ := hz
+  obtain ⟨hSs, _⟩ := mem_vertexSets.1 hS
+  have hp2 : [p.1, p.2] ∈ combos S 2 := by
+    rw [← pairs_eq_combos]; exact List.mem_map.2 ⟨p, hp, rfl⟩
+  obtain ⟨u, v, huv, hu, hv, hlt⟩ := (combos_two_of_sorted hSs.1 _).1 hp2
+  have h1 : p.1 = u := by simpa using (List.cons.inj huv).1
+  have h2 : p.2 = v := by simpa using (List.cons.inj (List.cons.inj huv).2).1
+  have hmem : [p.1, p.2] ∈ combosSeqs n 2 := by
+    rw [h1, h2]; exact mem_pairs.2 ⟨(hSs.2 u hu).1, hlt, (hSs.2 v hv).2⟩
+  have := word_call_word 0 (n : Int) 2 "combinations" (pairs_nodup n) [p.1, p.2] (by simp) hmem
+  simp only [natPat, List.map_cons, List.map_nil] at this
+  simp only [this, Int.toNat_natCast, Ramsey.eId, Nat.zero_add]
+
+/-- **`RamseyNumber` of the source is `Fam.Ramsey.ramseyNumber` of the model** for all integers: the same ValueError
+or one variable per pair (the translated `new_combinations(N, 2)`), a positive clause per `s`-set and a negative clause
+per `k`-set, the literals found through the translated word group -/
+theorem gen_ramsey_eq_model (s k N : Int) :
+    RamseyNumber s k N = (Ramsey.ramseyNumber s k N).map stateOf := by
+  unfold RamseyNumber
+  simp only [gen_non_negative_int_eq, gen_positive_int_eq]
+  by_cases hN : N < 0
+  · simp [hN, ramsey_err s k N (Or.inl hN)]
+  by_cases h1 : s < 1
+  · simp [hN, h1, ramsey_err s k N (Or.inr (Or.inl h1))]
+  by_cases h2 : k < 1
+  · simp [hN, h1, h2, ramsey_err s k N (Or.inr (Or.inr h2))]
+  obtain ⟨n, rfl⟩ := Int.eq_ofNat_of_zero_le (by omega : 0 ≤ N)
+  obtain ⟨a, rfl⟩ := Int.eq_ofNat_of_zero_le (by omega : 0 ≤ s)
+  obtain ⟨b, rfl⟩ := Int.eq_ofNat_of_zero_le (by omega : 0 ≤ k)
+  have ha : 1 ≤ a := by omega
+  have hb : 1 ≤ b := by omega
+  simp only [hN, h1, h2, if_false, Py.ok_bind, ramsey_eq a b n ha hb, Py.map_ok]
+  have h2' : ((2 : Int)) = ((2 : Nat) : Int) := rfl
+  rw [h2', new_combinations_eq PyF.empty 0 rfl n 2]
+  simp only [Py.ok_bind, Py.itertoolsR_nonneg _ (Int.natCast_nonneg _), Int.toNat_natCast, range_toList_nat, ints,
+    combos_map, Nat.cast_ofNat]
+  have hwf := ramsey_wf a b n
+  have hnv : ((0 + (combosSeqs n 2).length : Nat) : Int) = (((combosSeqs n 2).length : Nat) : Int) := by simp
+  rw [sets_loop _ (combos (rangeN 1 (n + 1)) a) (fun S => Con.clause ((Ramsey.pairLits n S).map (fun (e : Nat) => (e : Int))))
+    _ _ hnv, Py.ok_bind]
+  · rw [sets_loop _ (combos (rangeN 1 (n + 1)) b)
+      (fun S => Con.clause ((Ramsey.pairLits n S).map (fun (e : Nat) => -(e : Int)))) _ _ hnv, Py.ok_bind]
+    · simp [stateOf, PyF.empty, Ramsey.ramseyCons]
+    · intro s S hS hs
+      rw [combos2_eq_pairs, ints, pairs_map]
+      rw [mapM_ok _ (fun z => -((Ramsey.eId n z.1.toNat z.2.toNat : Nat) : Int)) _ (by
+        intro z hz
+        simp only [ramsey_pairs_call n hS z hz, Py.ok_bind])]
+      simp only [Py.ok_bind, List.map_map, Function.comp_def, Int.ofNat_eq_natCast, Int.toNat_natCast]
+      have hmem : Con.clause ((Ramsey.pairLits n S).map (fun (e : Nat) => -(e : Int))) ∈
+          (⟨(combosSeqs n 2).length, Ramsey.ramseyCons a b n⟩ : Formula).cons := by
+        simp only [Ramsey.ramseyCons, List.mem_append, List.mem_map]
+        exact Or.inr ⟨S, hS, rfl⟩
+      have := add_clause_wf hwf s hs _ hmem
+      simpa [pairLits_eq_pairs, List.map_map, Function.comp_def] using this
+  · intro s S hS hs
+    rw [combos2_eq_pairs, ints, pairs_map]
+    rw [mapM_ok _ (fun z => Sum.inl ((Ramsey.eId n z.1.toNat z.2.toNat : Nat) : Int)) _ (by
+      intro z hz
+      simp only [ramsey_pairs_call n hS z hz, Py.ok_bind])]
+    simp only [Py.ok_bind, List.map_map, Function.comp_def, Int.ofNat_eq_natCast, Int.toNat_natCast]
+    have hl : (List.map (fun (x : Nat × Nat) => (Sum.inl ((Ramsey.eId n x.1 x.2 : Nat) : Int) : Sum Int (List Int))) (pairs S)) =
+        ((Ramsey.pairLits n S).map (fun (e : Nat) => (e : Int))).map Sum.inl := by
+      simp [pairLits_eq_pairs, List.map_map, Function.comp_def]
+    rw [hl, lits_inl, Py.ok_bind]
+    have hmem : Con.clause ((Ramsey.pairLits n S).map (fun (e : Nat) => (e : Int))) ∈
+        (⟨(combosSeqs n 2).length, Ramsey.ramseyCons a b n⟩ : Formula).cons := by
+      simp only [Ramsey.ramseyCons, List.mem_append, List.mem_map]
+      exact Or.inl ⟨S, hS, rfl⟩
+    exact add_clause_wf hwf s hs _ hmem
+
+
+/-- **the Ramsey formula of the source encodes the graphs on `N` vertices without independent set of size `s` and
+without clique of size `k`** — on the generated definition: `N(N-1)/2` variables (one per pair, the identifier of
+`{u,v}` is `eId`), and an assignment satisfies the formula (abstract constraints, CNF, OPB) iff the graph it encodes has
+neither -/
+theorem gen_ramsey_holds_iff (s k N : Nat) (hs : 1 ≤ s) (hk : 1 ≤ k) :
+    ∃ st : FState, RamseyNumber (s : Int) (k : Int) (N : Int) = Except.ok st ∧
+      st.numvar = ((N * (N - 1) / 2 : Nat) : Int) ∧
+      ∀ α, ((formulaOf st).holds α = true ↔ NoIndepSet N s α ∧ NoClique N k α) ∧
+        ((formulaOf st).toCNF.holds α = true ↔ NoIndepSet N s α ∧ NoClique N k α) ∧
+        ((formulaOf st).toOPB.holds α = true ↔ NoIndepSet N s α ∧ NoClique N k α) := by
+  have hm := ramsey_eq s k N hs hk
+  refine ⟨stateOf ⟨(combosSeqs N 2).length, Ramsey.ramseyCons s k N⟩, ?_, ?_, ?_⟩
+  · rw [gen_ramsey_eq_model, hm]; rfl
+  · have := (ramsey_nvars_wf s k N hs hk _ hm).1
+    simp only [stateOf] at this ⊢
+    exact_mod_cast this
+  · intro α
+    rw [formulaOf_stateOf]
+    exact ⟨ramsey_holds_iff s k N hs hk _ hm α, (ramsey_rendered s k N hs hk _ hm α).1,
+      (ramsey_rendered s k N hs hk _ hm α).2⟩
+
+/-- non-vacuity: `RamseyNumber(2, 2, 3)`: three pairs, each as a positive and as a negative unit clause -/
+example : RamseyNumber 2 2 3 = Except.ok ⟨3, [.clause [1], .clause [2], .clause [3],
+    .clause [-1], .clause [-2], .clause [-3]]⟩ := by rw [gen_ramsey_eq_model]; rfl
 
 end Cnfgen.C03
